@@ -16,9 +16,10 @@ LoadBuses == {1, 2, 3, 4, 5, 6}
 SgenBuses == {3}
 GenBuses(c) == IF c.gens THEN {1, 4} ELSE {}
 
-\* configuration c = [bnd : SUBSET Bus, seed : SUBSET Bus, eq : "ward"|"xward"|"rei", slack : 0|5, gens : BOOLEAN, spur : BOOLEAN]
+\* configuration c = [bnd : SUBSET Bus, seed : SUBSET Bus, eq : "ward"|"xward"|"rei", slack : 0|5, gens : BOOLEAN, spur : BOOLEAN,
+\*                    ghost : BOOLEAN (out-of-service PV units at the gen buses; only without gens)]
 \* the property quantifies over "any valid boundary": non-empty boundary, internal seeds outside the boundary
-WellFormed(c) == c.bnd # {} /\ c.seed # {} /\ c.bnd \cap c.seed = {}
+WellFormed(c) == c.bnd # {} /\ c.seed # {} /\ c.bnd \cap c.seed = {} /\ (c.ghost => ~c.gens)
 
 RECURSIVE Reach(_, _)
 Reach(S, E) == LET N == S \cup {e[2] : e \in {e \in E : e[1] \in S}} \cup {e[1] : e \in {e \in E : e[2] \in S}}
